@@ -114,7 +114,12 @@ def gen_login_map(repo):
 
 
 # ---------------------------------------------------------------------------------- gate skeleton
+LOGVARS = {"remote_host", "remote_useragent", "depthinfo", "https_info", "time_begin", "https"}
+
+
 def _is_logging(s):
+    if isinstance(s, ast.Assign) and all(isinstance(t, ast.Name) and t.id in LOGVARS for t in s.targets):
+        return True                        # variables that only feed log messages
     if isinstance(s, ast.Expr) and isinstance(s.value, ast.Call):
         f = s.value.func
         if isinstance(f, ast.Attribute) and isinstance(f.value, ast.Name) and f.value.id == "logger":
@@ -166,11 +171,15 @@ def gate_skeleton(repo):
     fn = py2coq.find_function(tree, "Application._handle_request")
     start = None
     for i, s in enumerate(fn.body):
-        if isinstance(s, ast.Assign) and ast.unparse(s.targets[0]) == "function":
+        if isinstance(s, ast.Assign) and ast.unparse(s.targets[0]) == "reverse_proxy" and start is None:
             start = i
     if start is None:
-        raise Unsupported("_handle_request: `function = getattr(...)` not found")
+        raise Unsupported("_handle_request: `reverse_proxy = False` not found")
     out = []
+    head = [x for x in fn.body[:start] if isinstance(x, ast.Assign) and ast.unparse(x.targets[0]) in ("request_method", "unsafe_path")]
+    if len(head) != 2:
+        raise Unsupported("_handle_request: request_method / unsafe_path assignments not found")
+    _skel(head, 0, out)
     _skel(fn.body[start:], 0, out)
     return out
 
@@ -184,7 +193,7 @@ def coq_string(s):
 def gen_gate_skel(repo):
     lines = gate_skeleton(repo)
     return ("(* GENERATED by /verif/translate/t_c05.py from radicale/app/__init__.py (Application._handle_request,\n"
-            "   from the method lookup to the final return; logging stripped) -- do not edit. *)\n"
+            "   from the reverse-proxy detection to the final return; logging stripped) -- do not edit. *)\n"
             "From Coq Require Import List String.\nImport ListNotations.\nOpen Scope string_scope.\n\n"
             "Definition skeleton : list string := [\n  " + ";\n  ".join(coq_string(l) for l in lines) + "\n].\n")
 
